@@ -160,7 +160,9 @@ func (s *State) cmd(cmd string) {
 	needReload := false
 	check := func(ci string) {
 		out := s.Conn.GetOutput()
-		out, needReload = s.stripReloadBanner(out)
+		var found bool
+		out, found = s.stripReloadBanner(out)
+		needReload = needReload || found
 		out = s.Conn.StripEcho(ci, out)
 		if out != "" {
 			if !isValidOutput(ci, out) {
